@@ -23,10 +23,15 @@ func c18Byte(i uint64) byte { return byte(i%251 + 1) }
 
 var errC18Custom = fmt.Errorf("closer's own error")
 
-func c18ErrClass(err error) string {
+func c18ErrClass(err error) (cls string) {
 	if err == nil {
 		return ""
 	}
+	defer func() {
+		if x := recover(); x != nil {
+			cls = fmt.Sprintf("other:unusable error value %#v (inspecting it panics: %v)", err, x)
+		}
+	}()
 	switch errors.Cause(err) {
 	case ErrClosedBacklog:
 		return "closed"
@@ -575,15 +580,21 @@ func c18Seq() {
 		maxLen = 5
 	}
 	ev.Bound("sequential_word_length", maxLen)
+	defer func() { errors.TraceEnabled = true }()
 	for _, cfg := range []struct {
-		capn int
-		file bool
-	}{{BuffSizeAlign, false}, {3 * BuffSizeAlign, false}, {FileSizeAlign, true}, {3 * FileSizeAlign, true}} {
+		capn     int
+		file     bool
+		traceOff bool // errors.TraceEnabled = false: errors travel unwrapped
+	}{{BuffSizeAlign, false, false}, {3 * BuffSizeAlign, false, false}, {FileSizeAlign, true, false}, {3 * FileSizeAlign, true, false}, {BuffSizeAlign, false, true}} {
 		if cfg.file && !ev.Thorough() {
 			continue
 		}
+		errors.TraceEnabled = !cfg.traceOff
 		real := uint64(align(cfg.capn, BuffSizeAlign))
 		ml := maxLen
+		if cfg.traceOff {
+			ml = maxLen - 1
+		}
 		if cfg.file {
 			real = uint64(align(cfg.capn, FileSizeAlign))
 			ml = 3
